@@ -83,6 +83,7 @@ type upstream struct {
 	bodies  map[string]*seenBody
 	order   []*seenBody
 	nextRow int
+	last    time.Time // last time an attempt started or ended
 }
 
 func headerView(h http.Header) map[string]string {
@@ -156,6 +157,7 @@ func (s *upstream) ServeHTTP(w http.ResponseWriter, r *http.Request) {
 	}
 	b.attempts = append(b.attempts, kind)
 	b.busy = true
+	s.last = time.Now()
 	s.ev.add(hlib.App("EAttS", nat(b.idx)))
 	s.mu.Unlock()
 
@@ -163,6 +165,7 @@ func (s *upstream) ServeHTTP(w http.ResponseWriter, r *http.Request) {
 	finish := func() {
 		s.mu.Lock()
 		b.busy = false
+		s.last = time.Now()
 		s.ev.add(hlib.App("EAttE", nat(b.idx), hlib.N(uint64(kind))))
 		s.mu.Unlock()
 	}
@@ -204,10 +207,17 @@ func (s *upstream) ServeHTTP(w http.ResponseWriter, r *http.Request) {
 }
 
 // waitArrived returns when every non-gauge item and at least one item of every gauge series has
-// been decoded from some body, or after the deadline.
-func (s *upstream) waitArrived(deadline time.Duration) {
-	end := time.Now().Add(deadline)
-	for time.Now().Before(end) {
+// been decoded from some body, or when the upstream has seen no attempt start or end for [idle]
+// (retries of one body can hold back the other parts of a flush for as long as the retry window).
+func (s *upstream) waitArrived(idle time.Duration) {
+	start := time.Now()
+	for time.Since(start) < 3*time.Minute {
+		s.mu.Lock()
+		quiet := time.Since(s.last) > idle && time.Since(start) > idle
+		s.mu.Unlock()
+		if quiet {
+			return
+		}
 		s.mu.Lock()
 		have := map[int]bool{}
 		for _, b := range s.order {
@@ -251,6 +261,9 @@ func runFwd(in input) []hlib.Case {
 	cls := "fwd-" + in.Mode
 	if in.D8 {
 		cls = "fwd-d8"
+	}
+	if in.Shutdown {
+		cls = "fwd-shutdown-" + in.Mode
 	}
 	c := hlib.Case{Input: in, Class: cls}
 	mon := &monitors{}
@@ -383,7 +396,7 @@ func runFwd(in input) []hlib.Case {
 	// flush's goroutine (see notes/C15.md): wait until every part has been posted once -- every
 	// recognisable datapoint has reached the upstream -- before cancelling.  A datapoint that does not
 	// arrive within the deadline is reported as lost below.
-	if !stuck {
+	if !stuck && !in.Shutdown {
 		deadline := 8 * time.Second
 		if in.D8 {
 			deadline = 2500 * time.Millisecond
@@ -503,6 +516,13 @@ func runFwd(in input) []hlib.Case {
 	c.Obs = map[string]interface{}{"bodies": len(bodies), "events": nev, "items": len(u.items), "created": created, "sent": sent,
 		"retried": retried, "dropped": dropped, "invalid": invalid, "bodies_retried": retriedBodies}
 	c.Nontrivial = nd >= 2 && len(bodies) >= 3 && (retriedBodies > 0 || nDropped > 0 || len(in.Dyn) > 0 || len(in.Flushes) > 0)
+	if in.Shutdown {
+		// the input class of the suspected shutdown defect: reported under its own signature
+		c.Coq = ""
+		if len(c.Monitors) > 0 {
+			c.Known = "shutdown-cancel-races-with-last-flush"
+		}
+	}
 	out := []hlib.Case{c}
 	if in.D8 && badMissing && missingValid > 0 && invalid >= 1 {
 		k := hlib.Case{Input: in, Class: "fwd-d8-finding", Known: d8Signature, Key: hlib.HashOf(in) + "-d8", Nontrivial: true,
